@@ -398,7 +398,7 @@ func (w *world) blKey(ip string) string {
 	return w.realIP(ip)
 }
 
-func (w *world) ms0() int64 { return int64(time.Since(w.start) / time.Millisecond) }     // rounded down
+func (w *world) ms0() int64 { return int64(time.Since(w.start) / time.Millisecond) }   // rounded down
 func (w *world) ms1() int64 { return int64(time.Since(w.start)/time.Millisecond) + 1 } // rounded up
 
 func (w *world) log(e fw.Event) {
@@ -558,10 +558,12 @@ func drive(env *fw.Env, b fw.Behaviour) *fw.Trace {
 	}
 	query := func(ip string, probe bool, st *mstep) {
 		gap()
+		settle := w.ungatedSpawns(ip)
 		t0 := w.ms0()
 		allowed, _ := w.ipm.IsAllowed(w.realIP(ip))
 		banned, _ := w.bf.IsBanned(w.realIP(ip))
 		w.log(fw.Event{"ev": "Query", "ip": ip, "bl": !allowed, "ban": banned, "probe": probe, "t0": t0, "t1": w.ms1()})
+		settle()
 		if st != nil {
 			noteAgree(b.Src, st.Bl == !allowed && st.Ban == banned, fmt.Sprintf("beh %d: query answered bl=%v ban=%v, model bl=%v ban=%v", b.ID, !allowed, banned, st.Bl, st.Ban))
 		}
@@ -585,7 +587,9 @@ func drive(env *fw.Env, b fw.Behaviour) *fw.Trace {
 			c := &hsCall{ip: st.IP, kind: st.Kind, t0: w.ms0()}
 			if beh.C.Atomic {
 				// the whole handshake runs inline; its Cred / Ban steps follow in the history
+				settle := w.ungatedSpawns(st.IP)
 				res, cred := w.handshake(st.IP, st.Kind)
+				settle()
 				exp := st.Res
 				for i+1 < len(beh.S) && (beh.S[i+1].A == "Cred" || beh.S[i+1].A == "Ban") && beh.S[i+1].P == st.P {
 					i++
@@ -753,6 +757,49 @@ func sortedKeys(m map[string]*hsCall) []string {
 	}
 	sort.Strings(ks)
 	return ks
+}
+
+// ungatedSpawns handles a tree without the yield points: the lazy removals a gate look-up spawns
+// cannot be parked there, they run at once and on their own. The only schedule such a tree lets the
+// driver realise is "the spawned removal runs before the next step": if the look-up about to be
+// made will find an expired record (and so spawn its removal), the returned function waits until
+// that record is gone. With the yield points present both are no-ops.
+func (w *world) ungatedSpawns(ip string) func() {
+	waitBan, waitBl := false, false
+	now := time.Now()
+	if !hookPresent("bf.unban.enter") {
+		for _, r := range w.bf.GetBannedIPs() {
+			waitBan = waitBan || (r.IP == w.realIP(ip) && !r.ExpiresAt.IsZero() && now.After(r.ExpiresAt))
+		}
+	}
+	if !hookPresent("ip.unblacklist.enter") {
+		for _, r := range w.ipm.GetBlacklist() {
+			waitBl = waitBl || (r.IP == w.realIP(ip) && !r.ExpiresAt.IsZero() && now.After(r.ExpiresAt)) // exact entries only: the removal is keyed by the address
+		}
+	}
+	if !waitBan && !waitBl {
+		return func() {}
+	}
+	return func() {
+		deadline := time.Now().Add(300 * time.Millisecond)
+		for time.Now().Before(deadline) {
+			left := false
+			if waitBan {
+				for _, r := range w.bf.GetBannedIPs() {
+					left = left || (r.IP == w.realIP(ip) && !r.ExpiresAt.IsZero() && now.After(r.ExpiresAt))
+				}
+			}
+			if waitBl {
+				for _, r := range w.ipm.GetBlacklist() {
+					left = left || (r.IP == w.realIP(ip) && !r.ExpiresAt.IsZero() && now.After(r.ExpiresAt))
+				}
+			}
+			if !left {
+				return
+			}
+			time.Sleep(100 * time.Microsecond)
+		}
+	}
 }
 
 // releaseAsync lets the parked asynchronous goroutine `name` run to its end. The hook point is at
@@ -944,6 +991,7 @@ func selfTest(env *fw.Env, acc []*fw.Trace) []*fw.Trace {
 		cfg := t.Events[0]
 		simple := true // sequential shape the re-computation below understands
 		nFail := 0
+		lastEnd := int64(-1)
 		for _, e := range t.Events {
 			switch e["ev"] {
 			case "MUnban", "Clean", "Wl", "MUnbl", "Take":
@@ -952,6 +1000,10 @@ func selfTest(env *fw.Env, acc []*fw.Trace) []*fw.Trace {
 				if e["res"] == "fail" {
 					nFail++
 				}
+				if num(e["t0"]) < lastEnd {
+					simple = false // overlapping handshakes: the judge's rules for them are not re-computed here
+				}
+				lastEnd = num(e["t1"])
 			}
 		}
 		if !simple {
@@ -1017,7 +1069,8 @@ func selfTest(env *fw.Env, acc []*fw.Trace) []*fw.Trace {
 					next++
 					c := cloneTrace(t, next)
 					var extra []fw.Event
-					for k := 0; k < int(num(cfg["burst"]))+1; k++ {
+					// enough copies to exceed burst + rate * (length of this call's bracket) + slack
+					for k := 0; k < int(num(cfg["burst"])+2+num(cfg["rate"])*(num(e["t1"])-num(e["t0"]))/1000); k++ {
 						d := fw.Event{}
 						for kk, v := range e {
 							d[kk] = v
@@ -1207,9 +1260,9 @@ func main() {
 		MaxBehSrc: func(env *fw.Env, src string) int {
 			if env.Tier == "thorough" {
 				if strings.HasPrefix(src, "gen:seq") {
-					return 2500
+					return 2000
 				}
-				return 1200
+				return 1000
 			}
 			switch {
 			case strings.HasPrefix(src, "gen:ban"):
@@ -1262,7 +1315,7 @@ func main() {
 		},
 		Rule: "behaviours are printed by TLC from spec/BruteForce.tla: one per transition (state, step) of the sequential graphs, every placement of the asynchronous unban/un-blacklist and every step at which the as-is model records a deviation or violation in the graph of two racing handshakes, plus -simulate histories; each is replayed on the real objects behind the real HandleHandshake with a real clock; non-trivial = realised with at least two handshakes / asynchronous removals / blacklist orders",
 		Assumptions: []string{
-			fmt.Sprintf("one model tick = %v of real time; durations of n ticks are configured as (n-1/2) ticks; a behaviour whose steps left the first quarter of their tick is discarded as inconclusive", tickD),
+			fmt.Sprintf("one model tick = %v of real time; durations of n ticks are configured as (n-1/2) ticks; a behaviour whose steps left the first third of their tick is discarded as inconclusive", tickD),
 			"the judge evaluates every timed predicate on measured call brackets (monotonic clock, ms) with margins: its demands are sound whatever the load, the margins only bound what it can demand",
 			"the credential store and the connection object are doubles; SessionManager is real but only asked for its node id",
 			"lifetime failure count = as kept with the failure record (dropped on success and when a clean-up finds its window empty)",
